@@ -9,7 +9,10 @@ CP = "csvpath/csvpath.py"
 EXPR = "csvpath/matching/productions/expression.py"
 LM = "csvpath/util/line_monitor.py"
 
-CF = {k: dict(v) for k, v in CLASS_FIELDS.items()}
+from collections import defaultdict
+CF = defaultdict(dict)      # one table of declared field types by class, filled by the contract modules (idempotent updates)
+for _k, _v in CLASS_FIELDS.items():
+    CF[_k].update(_v)
 CF.setdefault("Expression", {}).update({
     "g_match": "optbool",        # the vote the component casts when evaluated on this line (None counts as "not False")
     "g_fires_stop": "bool",      # evaluating it calls stop() on this line
